@@ -835,7 +835,8 @@ def run(ctx, br):
                 rejected += 1
             if why:
                 viol += 1
-                ctx.violation("C11 oracle: [%s] %s" % (j["kind"], why), rep)
+                sig = {"class": "invalid_accepted", "kind": j["kind"]} if (j["rc"] == 0 and j["expect"] == "reject") else None
+                ctx.violation("C11 oracle: [%s] %s" % (j["kind"], why), rep, signature=sig)
     finally:
         shutil.rmtree(lab_root, ignore_errors=True)
 
